@@ -43,7 +43,7 @@ func init() {
 	reg(&PropDef{
 		ID:     "C07",
 		Level:  "proof",
-		Custom: []func(*PropRun){c07Programs},
+		Custom: []func(*PropRun){c07Programs, c07Malformed},
 		Trusted: []string{"terminfo(5) 'Parameterized Strings' as transcribed in govc/ref_terminfo.go (the oracle)",
 			"fmt.Sprintf / strconv.Itoa renderings are opaque pieces compared by their arguments"},
 		Bounded: []string{"arbitrary well-formed programs: only the fixed grammar corpus in govc/c07.go is evaluated (bounded stand-in, not a proof of the general clause)"},
@@ -118,7 +118,9 @@ func init() {
 		ID:    "C05",
 		Level: "proof",
 		Funcs: []string{"tcell.(*tScreen).scanInput", "tcell.(*tScreen).inputLoop", "tcell.(*baseScreen).PostEvent", "tcell.(*baseScreen).PostEventWait", "tcell.(*baseScreen).PollEvent",
-			"tcell.(*baseScreen).ChannelEvents", "tcell.NewEventFocus", "tcell.NewEventKey", "tcell.NewEventMouse", "tcell.(*simscreen).postEvent", "tcell.(*tScreen).resize"},
+			"tcell.(*baseScreen).ChannelEvents", "tcell.NewEventFocus", "tcell.NewEventKey", "tcell.NewEventMouse", "tcell.(*simscreen).postEvent", "tcell.(*tScreen).resize",
+			// "every delivered event is a complete Event": the mouse event the parsers queue is never a nil pointer in an interface
+			"tcell.(*tScreen).buildMouseEvent"},
 		Custom: []func(*PropRun){c05Replays, c02Replays},
 		Trusted: []string{"Go channels are FIFO and deliver each value to exactly one receiver; the schedule-quantified conclusion (exactly once, global order) follows from the per-function contracts by the standard argument for single-consumer FIFO queues, which is assumed",
 			"screenImpl.EventQ/StopQ return the implementation's channels (assumed interface contract)", "time.Now() is an arbitrary time value (ghost clock not modelled)"},
